@@ -28,12 +28,35 @@ func runBlocked(c *mon.Case, sp spec) {
 	} else if !w.prepareRecv() {
 		return
 	}
-	D := sp.D()
+	D, O := sp.D(), sp.OD()
 	if sp.FNP && !w.setOpt(optFNP, true) {
 		return
 	}
-	if !w.setOpt(w.dlOpt(), D) {
-		return
+	if !sp.Inh {
+		// the other direction's deadline (if any) first or last: the order must not matter
+		otherFirst := O > 0 && c.Rand.Intn(2) == 0
+		if otherFirst && !w.setOpt(w.otherDlOpt(), O) {
+			return
+		}
+		if !w.setOpt(w.dlOpt(), D) {
+			return
+		}
+		if O > 0 && !otherFirst && !w.setOpt(w.otherDlOpt(), O) {
+			return
+		}
+	}
+	if sp.Op == "send" {
+		w.rdl = O
+	}
+	maxT := D
+	if O > maxT {
+		maxT = O // not a timer that may end this call, but one a defective library could arm for it
+	}
+	if sp.Inh {
+		c.Count("inherited_deadline_calls", 1)
+	}
+	if O > 0 {
+		c.Count("other_direction_deadline_calls", 1)
 	}
 	leave := sp.Peer == "vt-leave"
 	// Two good measurements for short deadlines: the second call starts >= D after
@@ -56,7 +79,7 @@ func runBlocked(c *mon.Case, sp spec) {
 			w.dropAll()
 			c.Count("peers_dropped_mid_call", len(w.vps))
 		}
-		if !c.AwaitOrViolate("deadline-ignored/"+w.id(), fmt.Sprintf("%s with deadline %v (peer %s, state %s)", w.id(), D, sp.Peer, sp.State), tc.call.Done, mon.AwaitOpts{MaxTimer: D}) {
+		if !c.AwaitOrViolate("deadline-ignored/"+w.id(), fmt.Sprintf("%s with deadline %v (other direction's deadline %v, inherited from the socket: %v; peer %s, state %s)", w.id(), D, O, sp.Inh, sp.Peer, sp.State), tc.call.Done, mon.AwaitOpts{MaxTimer: maxT}) {
 			w.outcome = "no-return"
 			return
 		}
@@ -68,7 +91,7 @@ func runBlocked(c *mon.Case, sp spec) {
 		case err == w.wantTimeout():
 			if el < D {
 				w.outcome = "early"
-				c.Violate("early-timeout/"+w.id(), "%s (peer %s, state %s, q=%d, call #%d after the option was set): %v returned %v after the call was invoked, deadline %v — %v early", w.id(), sp.Peer, sp.State, sp.Q, attempt+1, err, el, D, D-el)
+				c.Violate("early-timeout/"+w.id(), "%s (peer %s, state %s, q=%d, call #%d after the option was set; other direction's deadline %v; deadlines inherited from the socket: %v): %v returned %v after the call was invoked, deadline %v — %v early", w.id(), sp.Peer, sp.State, sp.Q, attempt+1, O, sp.Inh, err, el, D, D-el)
 				return
 			}
 			c.Count("timeouts_not_early", 1)
@@ -91,6 +114,12 @@ func runBlocked(c *mon.Case, sp spec) {
 		case isTimeoutErr(err):
 			w.outcome = "wrong-timeout"
 			c.Violate("wrong-timeout-error/"+w.id(), "%s returned %v, the timeout error of the other direction", w.id(), err)
+			return
+		case leave && err == mangos.ErrNoPeers && !sp.FNP:
+			// the no-peers error belongs to fail-no-peers mode; without it a peer leaving leaves the
+			// blocked call to its deadline
+			w.outcome = "left:ErrNoPeers"
+			c.Violate("no-peers-error-without-fail-no-peers/"+w.id(), "%s (fail-no-peers NOT set, deadline %v, state %s, q=%d): all %d peers were dropped while the call was in progress, and it returned %v after %v — want %v at the deadline", w.id(), D, sp.State, sp.Q, len(w.vps), err, el, w.wantTimeout())
 			return
 		case leave:
 			// the peer left during the wait: any other outcome is outside the statement
@@ -266,15 +295,25 @@ func runBestEffort(c *mon.Case, sp spec) {
 	if !w.prepareSend() {
 		return
 	}
-	if !w.setOpt(optBE, true) {
-		return
-	}
 	var D time.Duration
 	if sp.WithDL {
 		D = sp.D()
-		if !w.setOpt(optSD, D) {
+	}
+	// the send deadline (if any) before or after best effort: the order must not matter
+	dlFirst := sp.WithDL && c.Rand.Intn(2) == 0
+	if !sp.Inh {
+		if dlFirst && !w.setOpt(optSD, D) {
 			return
 		}
+		if !w.setOpt(optBE, true) {
+			return
+		}
+		if sp.WithDL && !dlFirst && !w.setOpt(optSD, D) {
+			return
+		}
+	}
+	if sp.Inh {
+		c.Count("inherited_best_effort_calls", 1)
 	}
 	if !w.arm() {
 		return
@@ -361,8 +400,11 @@ func runFNPNone(c *mon.Case, sp spec) {
 			}
 		}
 	}
-	if !w.setOpt(optFNP, true) {
+	if !sp.Inh && !w.setOpt(optFNP, true) {
 		return
+	}
+	if sp.Inh {
+		c.Count("inherited_fail_no_peers_calls", 1)
 	}
 	if sp.State == "be" && sp.Op == "send" {
 		// best effort set as well: with no peer connected the no-peers error still comes first
@@ -375,7 +417,7 @@ func runFNPNone(c *mon.Case, sp spec) {
 	var D time.Duration
 	if sp.WithDL {
 		D = sp.D()
-		if !w.setOpt(w.dlOpt(), D) {
+		if !sp.Inh && !w.setOpt(w.dlOpt(), D) {
 			return
 		}
 	}
